@@ -586,7 +586,8 @@ def _add_pop_type(proj):
         # Fix up TDVE types
         # Fix up transfers and interactions
         for tdve in proj.data.tdve.values():
-            tdve.type = FS.DEFAULT_POP_TYPE
+            tdve.pop_type = FS.DEFAULT_POP_TYPE
+        proj.data._pop_types = [FS.DEFAULT_POP_TYPE]
 
         for interaction in proj.data.transfers + proj.data.interpops:
             interaction.from_pop_type = FS.DEFAULT_POP_TYPE
